@@ -749,12 +749,13 @@ Definition c07_read_error (toks : list (list N)) : list (list N) :=
   end.
 
 (* C13: TlsHostsSettings::validate through both routes.
-   in : [bad_group; bad_index] main rp ping speed   (bad_group 0 = every certificate loads)
+   in : [bad_group; bad_index; bad_kind] main rp ping speed [alts]   (bad_group 0 = every certificate loads; alts = the main hosts'
+        alternative SNIs as in c05_select)
    out: [builder refused; Core::new refused] *)
 Definition c13_hosts (toks : list (list N)) : list (list N) :=
   match toks with
-  | [bg; _] :: main :: rp :: ping :: speed :: _ =>
-    let c := c05_config [1; 1; 1; 1] main [] rp ping speed in
+  | (bg :: _) :: main :: rp :: ping :: speed :: rest =>
+    let c := c05_config [1; 1; 1; 1] main (match rest with a :: _ => a | [] => [] end) rp ping speed in
     let ok := valid_hosts c && (bg =? 0) in
     [[if ok then 0 else 1; if ok then 0 else 1]]
   | _ => REJECT_TOK
